@@ -41,12 +41,25 @@ use yash_syntax::parser::Parser;
 use yash_syntax::parser::lex::Lexer;
 use yverif::shell::{BuiltinFuture, Config, Outcome, SourceKind, VEnv, probe_builtins, read_file, run_with};
 
+/// the files the scripts may read with the `.` built-in (the same in lean/YashModel/Input/Model.lean
+/// `dotFile`)
+const DOT_FILES: [(&str, &str); 6] = [
+    ("/d1", "probe D1\nread vd\nprobe D1b \"$vd\"\n"),
+    ("/d2", "alias a3='probe fromdot'\nset -o portable\n"),
+    ("/d3", "probe D3a\nfi\nprobe D3b\n"),
+    ("/d4", "probe D4 'multi\nline'\ncat <<E\nh dot é\nE\n"),
+    ("/d5", ""),
+    ("/d6", "st 3"),
+];
+
 #[derive(Clone, Debug)]
 enum Feed {
     /// `sh -c script`, stdin = data
     Str,
     /// `sh -s` with /dev/stdin = script (a regular file)
     File,
+    /// `sh /script.sh`: the script is read from its own descriptor, stdin = data
+    Script,
     /// `sh -s` with stdin a pipe written in chunks of the given sizes (cyclic), with that many
     /// executor yields between chunks
     Pipe(Vec<usize>, usize),
@@ -111,6 +124,12 @@ fn run_feed(script: &[u8], data: &[u8], feed: &Feed) -> Outcome {
             c.source = SourceKind::Stdin;
             c
         }
+        Feed::Script => {
+            // the bytes are stored into the file by `setup`
+            let mut c = Config::new("");
+            c.source = SourceKind::File("/script.sh".into());
+            c
+        }
     };
     cfg.max_rounds = 100_000;
     let feed = feed.clone();
@@ -125,7 +144,17 @@ fn run_feed(script: &[u8], data: &[u8], feed: &Feed) -> Outcome {
             env.builtins.insert("a1", Builtin::new(Type::Mandatory, a1_main));
             env.builtins.insert("a2", Builtin::new(Type::Mandatory, a2_main));
             env.builtins.insert("a3", Builtin::new(Type::Mandatory, a3_main));
+            for (path, content) in DOT_FILES {
+                yverif::shell::write_file(state, path, content.as_bytes());
+            }
             match feed {
+                Feed::Script => {
+                    yverif::shell::write_file(state, "/script.sh", &script);
+                    let inode = state.borrow().file_system.get("/dev/stdin").unwrap();
+                    if let FileBody::Regular { content, .. } = &mut inode.borrow_mut().body {
+                        *content = data.clone();
+                    }
+                }
                 Feed::Str => {
                     // standard input of a `-c` shell: a regular file holding `data`
                     let inode = state.borrow().file_system.get("/dev/stdin").unwrap();
@@ -290,6 +319,9 @@ fn run_sequential(units: &[Vec<u8>], data: &[u8]) -> Outcome {
         env.builtins.insert("a1", Builtin::new(Type::Mandatory, a1_main));
         env.builtins.insert("a2", Builtin::new(Type::Mandatory, a2_main));
         env.builtins.insert("a3", Builtin::new(Type::Mandatory, a3_main));
+        for (path, content) in DOT_FILES {
+            yverif::shell::write_file(&state2, path, content.as_bytes());
+        }
         {
             let inode = state2.borrow().file_system.get("/dev/stdin").unwrap();
             if let FileBody::Regular { content, .. } = &mut inode.borrow_mut().body {
@@ -377,6 +409,7 @@ fn parse_feed(t: &str) -> Option<Feed> {
     match t {
         "str" => Some(Feed::Str),
         "file" => Some(Feed::File),
+        "script" => Some(Feed::Script),
         _ => {
             let mut it = t.split(':');
             if it.next()? != "pipe" {
@@ -531,7 +564,7 @@ fn reads_stdin(script: &[u8]) -> bool {
             .filter(|t| !t.is_empty())
             .collect();
         for (i, t) in toks.iter().enumerate() {
-            if *t == "read" {
+            if t.contains("read") || *t == "/d1" {
                 return true;
             }
             if *t == "cat" && !toks.get(i + 1).map(|n| n.starts_with("<<")).unwrap_or(false) {
@@ -559,7 +592,7 @@ fn oracle(c: &Case, script: &[u8], obs: &Obs) -> String {
     if obs.stuck {
         return "FAIL:stuck".into();
     }
-    let shared = !matches!(c.feed, Feed::Str);
+    let shared = !matches!(c.feed, Feed::Str | Feed::Script);
     // (1) the feed does not matter
     let reference = observe(script, &c.data, &Feed::File);
     match c.feed {
@@ -588,6 +621,18 @@ fn oracle(c: &Case, script: &[u8], obs: &Obs) -> String {
                 }
             }
         }
+        Feed::Script => {
+            // a script file and the same script on standard input: same commands, same echo
+            if !reads_stdin(script) {
+                let a: Vec<String> = obs.items.iter().map(|i| strip_offset(i)).collect();
+                let b: Vec<String> = reference.items.iter().map(|i| strip_offset(i)).collect();
+                if a != b || obs.status != reference.status || obs.err != reference.err
+                    || obs.echo != reference.echo
+                {
+                    return format!("FAIL:script-file-feed-differs file={}", show(&reference));
+                }
+            }
+        }
         Feed::File => {}
     }
     // a reported error (other than a command that was not found) is a syntax error: status 2
@@ -597,7 +642,8 @@ fn oracle(c: &Case, script: &[u8], obs: &Obs) -> String {
     if shared {
         // (2) every offset a command sees is the start of a line (for valid UTF-8 input: `read`
         // stops in the middle of a line when it meets an invalid byte)
-        let valid = std::str::from_utf8(script).is_ok();
+        let valid = std::str::from_utf8(script).is_ok()
+            && !script.windows(3).any(|w| w == b"-d ");
         for it in obs.items.iter().filter(|_| valid) {
             if let Some(o) = offset_of(it) {
                 if !line_start(script, o) {
@@ -1017,6 +1063,51 @@ impl Gen {
             }
         }
     }
+    /// commands read by a nested read-eval loop: `eval` (a string, line by line) and `.` (a file)
+    fn nested_unit(&mut self) -> String {
+        let v = self.var();
+        let k = 1 + self.rng.below(3);
+        match self.rng.below(12) {
+            0 => format!("eval 'probe {}; probe {}'", self.m(), self.m()),
+            1 => {
+                if !self.aliases.contains(&k) {
+                    self.aliases.push(k);
+                }
+                // the alias defined on the first line of the string is an alias on its second line
+                format!("eval 'alias a{k}=\"probe E{}\"; a{k}\na{k}'", self.marker)
+            }
+            2 => format!("eval 'read {v}'\n{}\nprobe {} \"${v}\"", self.data_line(), self.m()),
+            3 => format!("st 3; eval ''; probe {} $?", self.m()),
+            4 => format!("eval probe {} \"{} {}\"", self.m(), self.word(), self.word()),
+            5 => format!("eval 'if st 0; then\nprobe {}\nfi\n'; probe {} $?", self.m(), self.m()),
+            6 => format!(". /d1\n{}\nprobe {}", self.data_line(), self.m()),
+            7 => {
+                self.portable = true;
+                if !self.aliases.contains(&3) {
+                    self.aliases.push(3);
+                }
+                ". /d2\na3".into()
+            }
+            8 => ". /d4".into(),
+            9 => format!("st 2; . /d5; probe {} $?", self.m()),
+            10 => format!(". /d6; probe {} $?", self.m()),
+            _ => format!("( eval 'probe {}\nst 4' ); probe {} $?", self.m(), self.m()),
+        }
+    }
+    /// `read -d`, backslashes that are not line continuations
+    fn read_opt_unit(&mut self) -> String {
+        let v = self.var();
+        let w = self.var();
+        match self.rng.below(7) {
+            0 => format!("read -d : {v}\n{}:probe {} \"${v}\"", self.data_line(), self.m()),
+            1 => format!("read -r -d , {v}\n{}\\\n{},probe {} \"${v}\"", self.word(), self.word(), self.m()),
+            2 => format!("read -d '' {v}\n{}\u{E000}probe {} \"${v}\"", self.data_line(), self.m()),
+            3 => format!("read -d x {v}\nl1 \n l2xprobe {} \"${v}\"", self.m()),
+            4 => format!("read {v} {w}\na\\ b c\\\\d\\e\nprobe {} \"${v}\" \"${w}\"", self.m()),
+            5 => format!("read -r {v} {w}\na\\ b c\nprobe {} \"${v}\" \"${w}\"", self.m()),
+            _ => format!("read -d : {v} {w}\n{} \\: {}\\\n{}:probe {} \"${v}\" \"${w}\"", self.word(), self.word(), self.word(), self.m()),
+        }
+    }
     fn quoted_unit(&mut self) -> String {
         match self.rng.below(5) {
             0 => format!("probe {} \"{}\n{}\"", self.m(), self.word(), self.word()),
@@ -1117,6 +1208,15 @@ impl Gen {
             format!("probe {m} 'x\n\n"),
             format!("cat <<EOT; probe {m} 'q\nh\nEOT\nstill quoted"),
             format!("a1 'open"),
+            format!("eval 'probe {m}\nfi\nprobe {m}'"),
+            format!("eval \"probe {m} '\""),
+            ". /d3".into(),
+            format!("probe {m} (st 0)"),
+            "esac".into(),
+            format!("{{ probe {m}; }} {{"),
+            format!("{{ st 0; }} probe {m}"),
+            format!("( st 0 ) if st 0; then probe {m}; fi"),
+            format!("{{ st 0; }} ! st 1"),
         ];
         pool[self.rng.below(pool.len())].clone()
     }
@@ -1130,10 +1230,12 @@ impl Gen {
             15 | 16 => self.heredoc(),
             17 => self.quoted_unit(),
             18 => self.blank_unit(),
-            _ => match self.rng.below(6) {
+            _ => match self.rng.below(9) {
                 0 => self.raw_unit(),
                 1 => self.alias_open_unit(),
-                2 | 3 | 4 => self.mode_unit(),
+                2 | 3 => self.mode_unit(),
+                4 | 5 => self.nested_unit(),
+                6 | 7 => self.read_opt_unit(),
                 _ => self.line(),
             },
         }
@@ -1193,7 +1295,7 @@ fn raw_bytes(text: &str) -> Vec<u8> {
 }
 
 fn feeds_for(rng: &mut Rng, len: usize, thorough: bool) -> Vec<String> {
-    let mut v = vec!["file".to_string(), "str".to_string()];
+    let mut v = vec!["file".to_string(), "str".to_string(), "script".to_string()];
     v.push(format!("pipe:0:{}", len.max(1)));
     v.push("pipe:1:1".to_string());
     let a = 1 + rng.below(9);
@@ -1344,7 +1446,7 @@ fn main() {
     // thin branches fed with a boundary at every byte position: here-documents split across reads,
     // line continuation at a chunk boundary, an alias whose replacement consumes the next line, end of
     // input inside a quote, NUL and invalid UTF-8 bytes in data and in script text
-    let edge_scripts: [&[&str]; 7] = [
+    let edge_scripts: [&[&str]; 11] = [
         &["cat <<E1; cat <<E2\nh1 é\nE1\nE2x\nE2\n", "probe m1\n"],
         &["probe m1 a\\\nb \"c\\\nd\"\n", "read v1\nx\\\ny\n", "probe m2 $v1\n"],
         &["alias a1='probe m1 &&'\n", "a1\nprobe m2\n", "alias a2='if st 0; then'\n", "a2\nprobe m3\nfi\n"],
@@ -1352,6 +1454,10 @@ fn main() {
         &["read v1\na\u{E000}b\n", "probe m1 \"$v1\" $?\n", "read v2\nx\u{E001}y, z\n", "probe m2 \"$v2\" $?\n"],
         &["probe m1 'a\u{E001}b' \u{E002}\u{E000} # \u{E005}\n", "cat <<E\n\u{E003}\u{E004}\nE\n"],
         &["if st 0; then\ncat <<E\nh\nE\nread v1\nfi\nd1 \\\nd2\n", "probe m1 \"$v1\""],
+        &["alias a1='st 0 &&'\n", "a1"],
+        &["read v1\nx\u{E001}"],
+        &["read v1\nab\\"],
+        &["read -d : v1\na\nb:probe m1 \"$v1\"\n", ". /d1\ndot data\n", "eval 'read v2\nprobe m2 $v2'\nx y\n"],
     ];
     for units in utf_scripts.iter().chain(edge_scripts.iter()) {
         let us: Vec<Vec<u8>> = units.iter().map(|u| raw_bytes(u)).collect();
